@@ -1045,6 +1045,11 @@ def dict_dispatch_to_chain(func):
     return count
 
 
+_CONTAINER_METHOD_NAMES = {'get', 'items', 'keys', 'values', 'update', 'pop', 'popitem', 'setdefault', 'clear', 'copy', 'append', 'extend', 'insert',
+                           'remove', 'index', 'count', 'sort', 'reverse', 'add', 'discard', 'join', 'split', 'strip', 'encode', 'decode', 'format',
+                           'read', 'write', 'close', 'send', 'recv'}
+
+
 class Unsupported(Exception):
     pass
 
@@ -1937,6 +1942,102 @@ def eliminate_container_aliases(func, self_name, rebound_elsewhere):
         R().visit(func)
         ast.fix_missing_locations(func)
     return n
+
+
+def erase_local_wrappers(func, prog, known_classes):
+    """`w = W(a, b)` where W is a new class whose constructor only keeps its arguments (`self._x = a`) and whose other methods have been
+    inlined: every `w._x` is `a`, every `w[k]` is what the one-expression `__getitem__` of W says - and the wrapper object is gone when
+    nothing else uses it.  (The arguments are plain names that the function does not rebind.)  Returns the number of locals erased."""
+    count = 0
+    stores = {}
+    for x in walk_no_nested(func):
+        if isinstance(x, ast.Name) and isinstance(x.ctx, (ast.Store, ast.Del)):
+            stores[x.id] = stores.get(x.id, 0) + 1
+    params = {a.arg for a in ast.walk(func.args) if isinstance(a, ast.arg)}
+    for st in [x for x in walk_no_nested(func) if isinstance(x, ast.Assign)]:
+        if not (len(st.targets) == 1 and isinstance(st.targets[0], ast.Name) and stores.get(st.targets[0].id) == 1
+                and isinstance(st.value, ast.Call) and isinstance(st.value.func, ast.Name) and not st.value.keywords):
+            continue
+        cls = [c for c in prog.classes.values() if c.name == st.value.func.id and c.qual not in known_classes]
+        if len(cls) != 1 or cls[0].bases or cls[0].ext_bases:
+            continue
+        c = cls[0]
+        init = c.methods.get('__init__')
+        if init is None or not init.self_name:
+            continue
+        ips = init.call_params()
+        if len(ips) != len(st.value.args) or init.node.args.vararg or init.node.args.kwarg:
+            continue
+        body = _strip_doc(init.node.body)
+        fields = {}
+        ok = True
+        for b in body:
+            if isinstance(b, ast.Assign) and len(b.targets) == 1 and isinstance(b.targets[0], ast.Attribute) and isinstance(b.targets[0].value, ast.Name) \
+                    and b.targets[0].value.id == init.self_name and isinstance(b.value, ast.Name) and b.value.id in ips:
+                fields[b.targets[0].attr] = st.value.args[ips.index(b.value.id)]
+            else:
+                ok = False
+        if not ok or not fields:
+            continue
+        if not all(isinstance(a, ast.Name) and (stores.get(a.id, 0) == 0 and a.id in params or stores.get(a.id, 0) <= 1) for a in st.value.args):
+            continue
+        # nobody else writes the fields
+        if any(isinstance(x, ast.Attribute) and x.attr in fields and isinstance(x.ctx, (ast.Store, ast.Del)) and x is not None
+               and not any(x is b.targets[0] for b in body if isinstance(b, ast.Assign))
+               for m in prog.modules.values() for x in ast.walk(m.tree)):
+            continue
+        w = st.targets[0].id
+        gi = c.methods.get('__getitem__')
+        gi_expr = None
+        if gi is not None and isinstance(gi.node, ast.FunctionDef):
+            gb = _strip_doc(gi.node.body)
+            if len(gb) == 1 and isinstance(gb[0], ast.Return) and gb[0].value is not None and len(gi.call_params()) == 1:
+                gi_expr = (gi.self_name, gi.call_params()[0], gb[0].value)
+        uses = [x for x in walk_no_nested(func) if isinstance(x, ast.Name) and x.id == w and isinstance(x.ctx, ast.Load)]
+        good = []
+        pm = {}
+        for x in walk_no_nested(func):
+            for ch in ast.iter_child_nodes(x):
+                pm[id(ch)] = x
+        for u in uses:
+            par = pm.get(id(u))
+            if isinstance(par, ast.Attribute) and par.value is u and par.attr in fields and isinstance(par.ctx, ast.Load):
+                good.append(('field', par, u))
+            elif isinstance(par, ast.Subscript) and par.value is u and isinstance(par.ctx, ast.Load) and gi_expr is not None \
+                    and not isinstance(par.slice, ast.Slice):
+                good.append(('item', par, u))
+            else:
+                good = None
+                break
+        if not good:
+            continue
+
+        class R(ast.NodeTransformer):
+            def visit_Attribute(s_, node):
+                s_.generic_visit(node)
+                if isinstance(node.value, ast.Name) and node.value.id == w and node.attr in fields and isinstance(node.ctx, ast.Load):
+                    return ast.copy_location(copy.deepcopy(fields[node.attr]), node)
+                return node
+
+            def visit_Subscript(s_, node):
+                if isinstance(node.value, ast.Name) and node.value.id == w and isinstance(node.ctx, ast.Load) and gi_expr is not None:
+                    me_, key_, e_ = gi_expr
+                    new = _Subst({key_: s_.visit(node.slice), me_: ast.Name(id=w, ctx=ast.Load())}, {}).visit(copy.deepcopy(e_))
+                    return ast.copy_location(s_.visit(new), node)
+                s_.generic_visit(node)
+                return node
+        R().visit(func)
+        # drop the construction
+        for holder in ast.walk(func):
+            for fld in ('body', 'orelse', 'finalbody'):
+                b = getattr(holder, fld, None)
+                if isinstance(b, list) and st in b:
+                    b.remove(st)
+                    if not b:
+                        b.append(ast.copy_location(ast.Pass(), st))
+        ast.fix_missing_locations(func)
+        count += 1
+    return count
 
 
 def fold_derived_fields(prog, known_attrs):
@@ -3523,7 +3624,10 @@ class Inliner:
                 r = res.resolve_call(call, fi, count=False)
             except Exception:
                 return None
-            if r.kind == 'repo' and len(r.targets) == 1 and r.targets[0].qual in cands and r.targets[0] is not fi:
+            if r.kind == 'repo' and len(r.targets) == 1 and r.targets[0].qual in cands and r.targets[0] is not fi \
+                    and not ('cha' in (r.note or '') and r.targets[0].name in _CONTAINER_METHOD_NAMES):
+                # (a method called `get` / `items` / `update` .. found by its name alone, on a receiver of unknown type, is far more
+                # likely the dict / list method - inlining a same-named helper of the program there would even recurse into itself)
                 # a function that took the place of a reference method is inlined into the wrapper that stands for that method, and
                 # nowhere else: the other call sites are turned into calls of the wrapper once everything else has been inlined
                 w = self.moved.get(r.targets[0].qual)
@@ -3774,6 +3878,8 @@ class Inliner:
                             r = res.resolve_call(x, fi, count=False)
                         except Exception:
                             continue
+                        if 'cha' in (r.note or '') and any(t.name in _CONTAINER_METHOD_NAMES for t in r.targets):
+                            continue        # `self._d.get(k)` is the dict's get, not this class's
                         for t in r.targets:
                             if t.qual in cands:
                                 graph[q].add(t.qual)
@@ -3828,6 +3934,7 @@ class Inliner:
                 prog.reindex()
         self._condition_locals()
         prog.reindex()
+        self._drop_unused_classes()
         return self.report
 
     def _plain_record_subclasses(self):
@@ -3895,6 +4002,9 @@ class Inliner:
                 k = beta_reduce(fi.node)
                 if k:
                     self.report['lambda_applications'][q] = k
+                k = erase_local_wrappers(fi.node, self.prog, self.known_classes())
+                if k:
+                    self.report.setdefault('erased_wrappers', {})[q] = k
                 k = table_get_to_chain(fi.node, ctabs)
                 if k:
                     self.report.setdefault('table_get_chains', {})[q] = self.report.get('table_get_chains', {}).get(q, 0) + k
@@ -3925,6 +4035,36 @@ class Inliner:
                 n = propagate_condition_locals(fi.node)
                 if n:
                     self.report['condition_locals'][q] = n
+
+    def _drop_unused_classes(self):
+        """a class that is not in the reference and that nothing names any more (its only uses were wrapper objects that have been
+        written out) is not part of the program"""
+        known = self.known_classes()
+        vocabulary = set(known_table().get('vocabulary') or ())
+        dropped = []
+        for m in self.prog.modules.values():
+            for st in list(m.tree.body):
+                if not isinstance(st, ast.ClassDef) or (m.name + '.' + st.name) in known or st.name in vocabulary:
+                    continue
+                used = False
+                for m2 in self.prog.modules.values():
+                    for x in ast.walk(m2.tree):
+                        if x is st:
+                            continue
+                        if isinstance(x, ast.Name) and x.id == st.name and not any(x is y for y in ast.walk(st)):
+                            used = True
+                        elif isinstance(x, ast.Attribute) and x.attr == st.name:
+                            used = True
+                        elif isinstance(x, ast.Constant) and x.value == st.name:
+                            used = True
+                    if used:
+                        break
+                if not used and not any(isinstance(b, ast.ClassDef) for b in st.body):
+                    m.tree.body.remove(st)
+                    dropped.append(m.name + '.' + st.name)
+        if dropped:
+            self.report['dropped_classes'] = dropped
+            self.prog.reindex()
 
     def _drop_unreferenced(self, cands):
         prog = self.prog
